@@ -37,7 +37,8 @@ inductive TimerEnd where
     `over`: the stack has been drained — whoever got there first (reply, fault, timer)
     popped both frames; later arrivals find it empty. -/
 inductive Phase where
-  | waitOpen                       -- linked on the dispatcher's open result, not dispatched yet
+  | waitOpen (g : Option Nat)      -- linked on the dispatcher's open result, not dispatched yet; the
+                                   -- dispatcher's own timer (`_DispatchWhenOpen`) is queued for `g`
   | live (due : Option Nat)
   | over (t : TimerEnd)
   deriving Repr, DecidableEq, Inhabited
@@ -80,7 +81,9 @@ def Call.respond (c : Call) (now : Nat) (o : Outcome) : Call :=
 /-- `_DispatchMethod` + the spawned `ClientTimeoutSink.AsyncProcessRequest`, run at `now` -/
 def Call.dispatch (c : Call) (now : Nat) : Call :=
   match c.phase with
-  | .waitOpen =>
+  | .waitOpen _ =>
+    -- `on_open`: the dispatcher's timer is cancelled (if its action still runs it finds
+    -- `waiting` false and does nothing); from here on the timeout sink guards the deadline
     if c.T = 0 then { c with phase := .live none, lowerGot := true }
     else
       let deadline := c.issueT + c.T
@@ -91,8 +94,19 @@ def Call.dispatch (c : Call) (now : Nat) : Call :=
         { c with phase := .live (some (roundUp deadline)), lowerGot := true }
   | _ => c
 
-def newCall (cid now T : Nat) : Call :=
-  { cid := cid, issueT := now, T := T, phase := .waitOpen, evtSet := false, lowerGot := false, sets := [] }
+/-- the deadline (rounded to the timer grid) a queued timer of this call is due at, if any -/
+def Call.armedDue (c : Call) : Option Nat :=
+  match c.phase with
+  | .waitOpen g => g
+  | .live d => d
+  | .over _ => none
+
+/-- a call as `DispatchMethodCall` creates it; `guard`: the client is still opening, so
+    `_DispatchWhenOpen` queues the dispatcher's own timer for the (rounded) deadline -/
+def newCall (cid now T : Nat) (guard : Bool) : Call :=
+  { cid := cid, issueT := now, T := T,
+    phase := .waitOpen (if guard && decide (0 < T) then some (roundUp (now + T)) else none),
+    evtSet := false, lowerGot := false, sets := [] }
 
 def FE.updCall (s : FE) (i : Nat) (f : Call → Call) : FE :=
   { s with calls := s.calls.map (fun c => if c.cid = i then f c else c) }
@@ -101,10 +115,9 @@ def FE.callOf (s : FE) (i : Nat) : Option Call := s.calls.find? (fun c => c.cid 
 
 /-- `DispatchMethodCall` at time `at_` -/
 def FE.issue (s : FE) (T : Nat) (at_ : Nat) : FE :=
-  let c := newCall s.calls.length at_ T
   let c' := match s.openSt with
-    | .done _ _ => c.dispatch at_
-    | .pending => c
+    | .done _ _ => (newCall s.calls.length at_ T false).dispatch at_
+    | .pending => newCall s.calls.length at_ T true
   { s with clock := at_, calls := s.calls ++ [c'] }
 
 /-- the dispatcher's open result completes (successfully or not — the continuation does not
@@ -123,13 +136,19 @@ def FE.lower (s : FE) (i : Nat) (o : Outcome) (at_ : Nat) : FE :=
     after the queue had already popped it) -/
 def Call.fireEnabled (c : Call) (at_ : Nat) : Bool :=
   match c.phase with
+  | .waitOpen (some due) => decide (due ≤ at_)
   | .live (some due) => decide (due ≤ at_)
   | .over (.cancelled due cat) => decide (due ≤ at_) && decide (due ≤ cat)
   | _ => false
 
-/-- the timer action `_TimeoutHelper(evt, sink_stack)` runs -/
+/-- the timer action runs: `_TimeoutHelper(evt, sink_stack)` of the timeout sink, or, for a call
+    still waiting for the client to open, `on_deadline` of `_DispatchWhenOpen` (the caller gets
+    TimeoutError; when the open result completes later, `on_open` finds the call no longer
+    waiting and never dispatches it) -/
 def Call.fire (c : Call) (now : Nat) : Call :=
   match c.phase with
+  | .waitOpen (some _) => { c with phase := .over .fired, sets := c.sets ++ [(now, .timeout)] }
+  | .waitOpen none => c
   | .live (some _) => { c with evtSet := true, phase := .over .fired, sets := c.sets ++ [(now, .timeout)] }
   | .over (.cancelled _ _) => { c with evtSet := true, phase := .over .fired }
   | _ => { c with evtSet := true }
